@@ -15,6 +15,7 @@ from mc import refcip as R, sim, wire as W
 
 ID = "C08"
 LEVEL = "fault_enumeration"
+ISOLATE_SHARDS = True        # every shard runs in a forked child of a pristine worker (mc/core.py)
 RULE = ("one-edit (thorough: also two-field-edit) neighbourhood of 15 kinds of valid frame + all strings of length <= 2 + boundary "
         "headers, x placements in a session; oracle: bounded steps (Python calls of the server thread <= K*(bytes+1), K = 4 x the "
         "largest per-byte cost seen on valid traffic), nothing escapes the connection runner, connection answered or closed, store "
@@ -513,3 +514,9 @@ def replay(case):
     if case.get("seed") not in (None, "short", "header"):
         allowed = (seed_effect(case["seed"], "thorough", case["placement"]),)
     return [m for k, m in run_hostile(case["hostile"], case["placement"], need_fo=case.get("fo", False), probes=True, allowed=allowed)]
+
+
+def preload():
+    """import the code under test once in the (pristine) worker; shard children are forked from it"""
+    from mc import sim as _sim
+    _sim.mods()
